@@ -225,6 +225,24 @@ def iter_zones(ctx, tz, relativedelta, rng, tier, with_real=True, n_posix=None, 
                     ctx.violation('tzical-rejected', {'zone': 'sub-minute %d' % stdoff}, '%s: %s' % (type(e).__name__, e))
             if want('tzrange'):
                 yield 'tzrange(sub-minute %d)' % stdoff, 'tzrange', tzzoo.tzrange_equivalent(tz, relativedelta, pz), PosixModel(pz, years), nothing
+        # one-off STANDARD components that move the clock forward (a gap made by a STANDARD component: Europe/Moscow 2011)
+        # and back (2014); the truth model is the equivalent TZif data
+        t1, t2 = to_ts(D.datetime(2011, 3, 26, 23)), to_ts(D.datetime(2014, 10, 25, 22))
+        data = tzif_ref.write_tzif([t1, t2, to_ts(D.datetime(2037, 1, 1))], [1, 2, 2], [(10800, False, 'MSK'), (14400, False, 'MSK4'), (10800, False, 'MSK3')])
+        text = ('BEGIN:VTIMEZONE\r\nTZID:Moscow/Like\r\n'
+                'BEGIN:STANDARD\r\nDTSTART:19900101T000000\r\nTZOFFSETFROM:+0300\r\nTZOFFSETTO:+0300\r\nTZNAME:MSK\r\nEND:STANDARD\r\n'
+                'BEGIN:STANDARD\r\nDTSTART:20110327T020000\r\nTZOFFSETFROM:+0300\r\nTZOFFSETTO:+0400\r\nTZNAME:MSK4\r\nEND:STANDARD\r\n'
+                'BEGIN:STANDARD\r\nDTSTART:20141026T020000\r\nTZOFFSETFROM:+0400\r\nTZOFFSETTO:+0300\r\nTZNAME:MSK3\r\nEND:STANDARD\r\nEND:VTIMEZONE\r\n')
+        for variant, txt in (('STANDARD', text), ('mixed', text.replace('BEGIN:STANDARD\r\nDTSTART:20141026', 'BEGIN:DAYLIGHT\r\nDTSTART:20141026')
+                                                               .replace('TZNAME:MSK3\r\nEND:STANDARD', 'TZNAME:MSK3\r\nEND:DAYLIGHT'))):
+            try:
+                m = TzifModel(tzif_ref.RefZone(data))
+                m.data = data
+                if variant == 'mixed':
+                    m.ignore_isdst = True
+                yield 'tzical(one-off %s components)' % variant, 'tzical', tz.tzical(io.StringIO(txt)).get(), m, nothing
+            except Exception as e:
+                ctx.violation('tzical-rejected', {'zone': 'one-off ' + variant}, '%s: %s' % (type(e).__name__, e))
         # TZNAME is optional per component: a component without it has no abbreviation (and must not inherit one)
         for nameless in ('EST', 'EDT'):
             for order in ('SD', 'DS'):
